@@ -255,6 +255,19 @@ fn pinned_programs() -> Vec<(&'static str, Vec<Stmt>)> {
             Stmt::With { bindings: vec![(name("a"), Expr::int(1)), (name("b"), Expr::Bin(BinOp::Add, Box::new(v("ci")), Box::new(Expr::int(1))))], body: vec![emit(v("a")), t(","), emit(v("b"))] },
             emit(Expr::Test(Box::new(v("a")), "defined".into(), vec![], false)),
         ]),
+        // a macro / call block body that reads a template-level name only in the else branch of a loop
+        ("macro_reads_outer_name_in_for_else", vec![
+            Stmt::Set { target: name("outer"), value: Expr::str("O") },
+            Stmt::Macro { name: "mac1".into(), params: vec![], body: vec![t("m1")] },
+            Stmt::Macro { name: "mac2".into(), params: vec![], body: vec![t("("), emit(Expr::call("caller", vec![])), t(")")] },
+            Stmt::Macro { name: "mac0".into(), params: vec![("p".into(), None)], body: vec![
+                for_(name("x"), v("p"), None, vec![emit(v("x"))], Some(vec![t("<"), emit(v("outer")), emit(Expr::call("mac1", vec![])), t(">")])),
+            ] },
+            emit(Expr::call("mac0", vec![v("ce")])), t("|"), emit(Expr::call("mac0", vec![v("cl")])),
+            Stmt::CallBlock { params: vec![], call: Expr::call("mac2", vec![]), body: vec![
+                for_(name("x"), v("cl"), Some(Expr::Bool(false)), vec![emit(v("x"))], Some(vec![emit(v("outer"))])),
+            ] },
+        ]),
         ("macro_defaults_kwargs_caller", vec![
             Stmt::Macro { name: "mac0".into(), params: vec![("p".into(), None), ("q".into(), Some(Expr::str("dq")))], body: vec![t("<"), emit(v("p")), t("|"), emit(v("q")), t("|"), emit(Expr::call("caller", vec![Expr::int(7)])), t(">")] },
             Stmt::CallBlock { params: vec![("n".into(), None)], call: Expr::Call(Box::new(v("mac0")), vec![Arg::Pos(Expr::int(1)), Arg::Kw("q".into(), v("cs"))]), body: vec![t("c"), emit(v("n"))] },
